@@ -443,7 +443,7 @@ InitIdempotent == [][(last'.op = "init" /\ \E x \in Handles : last'.args = <<x>>
 NoClobber   == [][last'.res = "DestinationExistsError" => ws' = ws]_vars
 RekeyOps    == {"setkey", "assign", "update_sp"}
 Rekeyed(x)  == last'.op \in RekeyOps /\ last'.res = "ok" /\ last'.args[1] = x /\ h'[x].id # h[x].id
-RekeyCarries == [][\A x \in Handles : (Rekeyed(x) /\ Rec(h[x].proj, h[x].id).ex) =>
+RekeyCarries == [][\A x \in Handles : (Rekeyed(x) /\ HasFile(Rec(h[x].proj, h[x].id))) =>      \* an initialised job
                      LET p == h[x].proj  old == h[x].id  new == h'[x].id IN
                      /\ new \in DOMAIN ws'[p] /\ old \notin DOMAIN ws'[p]
                      /\ ws'[p][new].doc = ws[p][old].doc /\ ws'[p][new].files = ws[p][old].files
